@@ -17,6 +17,7 @@ import (
 	"os"
 	"runtime"
 	"runtime/debug"
+	"sort"
 	"strconv"
 	"strings"
 	"syscall"
@@ -415,6 +416,10 @@ func runSim(c *proto.Corpus, e *proto.Expected, seed uint64, proc, runs int, bui
 		}
 	}
 	res.CallsUsed = len(used)
+	for id := range used {
+		res.UsedCalls = append(res.UsedCalls, int32(id))
+	}
+	sort.Slice(res.UsedCalls, func(i, j int) bool { return res.UsedCalls[i] < res.UsedCalls[j] })
 	res.SiteBits = simrt.SiteBits()
 	res.OutputBytes = capSize()
 	res.WallMs = time.Since(t0).Milliseconds()
